@@ -64,6 +64,15 @@ Definition qfree (q : option req) (c : nat) : Prop := match q with Some (RChecko
 Definition noHand (r c : nat) (l : list ev) : Prop := forall a b d n, ~ In (EHand r c a b d n) l.
 Definition dead (s : state) (c : nat) : Prop := W None s c = 0 /\ c < List.length (conns s).
 
+(* the popped connection of a checkout stays where it is as long as the request is a checkout *)
+Definition kcq (q : option req) (c : nat) : Prop := exists ck, q = Some (RCheckout ck) /\ k_conn ck = Some c.
+Definition goneq (q : option req) : Prop :=
+  match q with Some (RHolding _ _ _) | Some RDone | Some RCancelled => True | _ => False end.
+Definition kstep (q v : option req) : Prop := (forall c, kcq q c -> kcq v c \/ goneq v) /\ (goneq q -> goneq v).
+Lemma kstep_refl q : kstep q q. Proof. split; auto. Qed.
+Lemma kstep_trans a b c : kstep a b -> kstep b c -> kstep a c.
+Proof. intros [A1 A2] [B1 B2]. split; [|auto]. intros k Hk. destruct (A1 k Hk) as [H|H]; [apply B1, H|right; auto]. Qed.
+
 (* ---------------------------------------------------------------- the invariant of one (non-Issue) operation *)
 Definition newc (s0 s : state) (c : nat) : nat :=
   if Nat.leb (List.length (conns s0)) c && Nat.ltb c (List.length (conns s)) then 1 else 0.
@@ -78,22 +87,25 @@ Record J (s0 : state) (dc : nat) (x : option nat) (F : list nat) (s : state) : P
   j_now : now s = now s0;
   j_rlen : List.length (reqs s) = List.length (reqs s0);
   j_free : dead s0 dc -> forall w, Some w <> x -> qfree (nth_error (reqs s0) w) dc -> qfree (nth_error (reqs s) w) dc;
-  j_hand : dead s0 dc -> forall r, qfree (nth_error (reqs s0) r) dc -> noHand r dc (out s)
+  j_hand : dead s0 dc -> forall r, qfree (nth_error (reqs s0) r) dc -> noHand r dc (out s);
+  j_kc : forall w, Some w <> x -> kstep (nth_error (reqs s0) w) (nth_error (reqs s) w)
 }.
 
 Lemma PX_refl s : PX s s.
 Proof. unfold PX. induction (map p_idle (toks s)); constructor; auto. exists []. rewrite app_nil_r. reflexivity. Qed.
 
-Lemma J_refl s dc : out s = [] -> J s dc None [] s.
+Lemma J_refl' s dc : (forall r, noHand r dc (out s)) -> J s dc None [] s.
 Proof.
   intros Ho. constructor; auto.
   - intros c. rewrite cnt_nil. lia.
   - apply PX_refl.
-  - intros _ r _ a b d n. rewrite Ho. intros [].
+  - intros; apply kstep_refl.
 Qed.
+Lemma J_refl s dc : out s = [] -> J s dc None [] s.
+Proof. intros Ho. apply J_refl'. intros r a b d n. rewrite Ho. intros []. Qed.
 
 Lemma J_F s0 dc x F F' s : (forall c, cnt F' c <= cnt F c) -> J s0 dc x F s -> J s0 dc x F' s.
-Proof. intros H [H1 H2 H3 H4 H5 H6 H7 H8]. constructor; auto. intros c. specialize (H2 c). specialize (H c). lia. Qed.
+Proof. intros H [H1 H2 H3 H4 H5 H6 H7 H8 H9]. constructor; auto. intros c. specialize (H2 c). specialize (H c). lia. Qed.
 
 Lemma J_alive s0 dc x F s c0 : J s0 dc x F s -> In c0 F -> dead s0 dc -> c0 <> dc.
 Proof.
@@ -120,12 +132,13 @@ Qed.
 
 Lemma J_fj s0 dc x F s s' : fj s s' -> J s0 dc x F s -> J s0 dc x F s'.
 Proof.
-  intros Hf [H1 H2 H3 H4 H5 H6 H7 H8]. pose proof Hf as (A1&A2&A3&A4&A5&A6&A7).
+  intros Hf [H1 H2 H3 H4 H5 H6 H7 H8 H9]. pose proof Hf as (A1&A2&A3&A4&A5&A6&A7).
   constructor; try congruence.
   - intros c. rewrite (W_fj x s s' c Hf). unfold newc in *. rewrite A4. apply H2.
   - unfold PX in *. rewrite A1. exact H3.
   - rewrite A2. exact H7.
   - rewrite A5. exact H8.
+  - rewrite A2. exact H9.
 Qed.
 
 Lemma fj_upd_conn c f s : fj s (upd_conn c f s).
@@ -157,7 +170,7 @@ Lemma J_emit s0 dc x F e s : J s0 dc x F s ->
   (dead s0 dc -> forall r, qfree (nth_error (reqs s0) r) dc -> forall a b d n, e <> EHand r dc a b d n) ->
   J s0 dc x F (emit e s).
 Proof.
-  intros [H1 H2 H3 H4 H5 H6 H7 H8] He. constructor; auto.
+  intros [H1 H2 H3 H4 H5 H6 H7 H8 H9] He. constructor; auto.
   intros Hd r Hq a b d n [E|Hin]; [eapply He; eauto|eapply H8; eauto].
 Qed.
 Lemma J_emit_plain s0 dc x F e s : plain e -> J s0 dc x F s -> J s0 dc x F (emit e s).
@@ -179,13 +192,15 @@ Lemma J_gen s0 dc x F F' s s' :
   List.length (reqs s') = List.length (reqs s) -> PX s s' ->
   (forall c, W x s' c + cnt F' c <= W x s c + cnt F c) ->
   (dead s0 dc -> forall w, Some w <> x -> qfree (nth_error (reqs s) w) dc -> qfree (nth_error (reqs s') w) dc) ->
+  (forall w, Some w <> x -> kstep (nth_error (reqs s) w) (nth_error (reqs s') w)) ->
   J s0 dc x F s -> J s0 dc x F' s'.
 Proof.
-  intros A1 A2 A3 A4 A5 A6 A7 A8 [H1 H2 H3 H4 H5 H6 H7 H8]. constructor; try congruence.
+  intros A1 A2 A3 A4 A5 A6 A7 A8 A9 [H1 H2 H3 H4 H5 H6 H7 H8 H9]. constructor; try congruence.
   - intros c. specialize (H2 c). specialize (A7 c). unfold newc in *. rewrite A1. lia.
   - eapply PX_trans; eauto.
   - intros Hd w Hw Hq. apply (A8 Hd); auto.
   - rewrite A2. exact H8.
+  - intros w Hw. eapply kstep_trans; [apply H9|apply A9]; exact Hw.
 Qed.
 
 Lemma W_set_req x s w v q c : nth_error (reqs s) w = Some q -> Some w <> x ->
@@ -222,14 +237,16 @@ Qed.
 Lemma J_set_req_gen s0 dc x F F' s w v q :
   nth_error (reqs s) w = Some q -> Some w <> x ->
   (forall c, cnt (reqW v) c + cnt F' c <= cnt (reqW q) c + cnt F c) ->
-  (dead s0 dc -> qfree (Some q) dc -> qfree (Some v) dc) ->
+  (dead s0 dc -> qfree (Some q) dc -> qfree (Some v) dc) -> kstep (Some q) (Some v) ->
   J s0 dc x F s -> J s0 dc x F' (set_req w v s).
 Proof.
-  intros Hq Hne Hc Hf. apply J_gen; try reflexivity.
+  intros Hq Hne Hc Hf Hk. apply J_gen; try reflexivity.
   - unfold set_req. cbn [reqs set_reqs]. apply upd_nth_length.
   - apply PX_same. reflexivity.
   - intros c. pose proof (W_set_req x s w v q c Hq Hne). specialize (Hc c). lia.
   - intros Hd w' _. apply qfree_set_req; [rewrite Hq; exact (Hf Hd)|auto].
+  - intros w' _. unfold set_req. cbn [reqs set_reqs]. rewrite nth_error_upd_nth.
+    destruct (Nat.eqb_spec w w') as [<-|Hn]; [|apply kstep_refl]. rewrite Hq. cbn [option_map]. exact Hk.
 Qed.
 
 Lemma J_set_req_x s0 dc F s w v : J s0 dc (Some w) F s -> J s0 dc (Some w) F (set_req w v s).
@@ -239,35 +256,38 @@ Proof.
   - apply PX_same. reflexivity.
   - intros c. rewrite W_set_req_x. lia.
   - intros _ w' Hne Hq. unfold set_req. cbn [reqs set_reqs]. rewrite nth_error_upd_nth_ne by congruence. exact Hq.
+  - intros w' Hne. unfold set_req. cbn [reqs set_reqs]. rewrite nth_error_upd_nth_ne by congruence. apply kstep_refl.
 Qed.
 
 Lemma J_blank s0 dc F s r q : nth_error (reqs s) r = Some q -> J s0 dc None F s -> J s0 dc (Some r) (reqW q ++ F) s.
 Proof.
-  intros Hq [H1 H2 H3 H4 H5 H6 H7 H8]. constructor; auto.
+  intros Hq [H1 H2 H3 H4 H5 H6 H7 H8 H9]. constructor; auto.
   - intros c. specialize (H2 c). rewrite (W_blank s r q c Hq) in H2. rewrite cnt_app. lia.
   - intros Hd w _. apply H7; [exact Hd|discriminate].
+  - intros w _. apply H9. discriminate.
 Qed.
 
 Lemma J_unblank s0 dc F s r q : nth_error (reqs s) r = Some q ->
-  (dead s0 dc -> qfree (nth_error (reqs s0) r) dc -> qfree (Some q) dc) ->
+  (dead s0 dc -> qfree (nth_error (reqs s0) r) dc -> qfree (Some q) dc) -> kstep (nth_error (reqs s0) r) (Some q) ->
   J s0 dc (Some r) (reqW q ++ F) s -> J s0 dc None F s.
 Proof.
-  intros Hq Hf [H1 H2 H3 H4 H5 H6 H7 H8]. constructor; auto.
+  intros Hq Hf Hk [H1 H2 H3 H4 H5 H6 H7 H8 H9]. constructor; auto.
   - intros c. specialize (H2 c). rewrite (W_blank s r q c Hq). rewrite cnt_app in H2. lia.
   - intros Hd w _ Hw. destruct (Nat.eq_dec w r) as [->|Hn]; [rewrite Hq; auto|]. apply H7; auto. congruence.
+  - intros w _. destruct (Nat.eq_dec w r) as [->|Hn]; [rewrite Hq; exact Hk|]. apply H9. congruence.
 Qed.
 
 (* tasks *)
 Lemma J_spawn_wr s0 dc x F c t s : J s0 dc x (pw (c, t) ++ F) s -> J s0 dc x F (spawn (TWhenReady c t) s).
 Proof.
-  apply J_gen; try reflexivity; [apply PX_same; reflexivity| |auto].
+  apply J_gen; try reflexivity; [apply PX_same; reflexivity| |auto|intros; apply kstep_refl].
   intros c'. unfold W, WL, spawn. cbn [toks reqs_x reqs tasks set_runq set_tasks].
   rewrite flat_map_app. cbn [flat_map taskW]. rewrite !cnt_app, cnt_nil. unfold reqs_x; destruct x; cbn [reqs set_runq set_tasks]; lia.
 Qed.
 
 Lemma J_finish_task s0 dc x F tid s : J s0 dc x F s -> J s0 dc x (taskW (nth tid (tasks s) None) ++ F) (finish_task tid s).
 Proof.
-  apply J_gen; try reflexivity; [apply PX_same; reflexivity| |auto].
+  apply J_gen; try reflexivity; [apply PX_same; reflexivity| |auto|intros; apply kstep_refl].
   intros c. unfold W, WL, finish_task. cbn [toks tasks set_tasks]. rewrite !cnt_app.
   assert (E : cnt (flat_map taskW (upd_nth tid (fun _ => None) (tasks s))) c + cnt (taskW (nth tid (tasks s) None)) c
               = cnt (flat_map taskW (tasks s)) c).
@@ -305,12 +325,13 @@ Proof.
       - rewrite (upd_nth_none _ _ _ Ep). lia. }
     unfold reqs_x; destruct x; cbn [reqs set_toks]; lia.
   - auto.
+  - intros; apply kstep_refl.
 Qed.
 
 (* a new connection *)
 Lemma J_new_conn s0 dc x F cn s : J s0 dc x F s -> J s0 dc x (List.length (conns s) :: F) (set_conns (conns s ++ [cn]) s).
 Proof.
-  intros [H1 H2 H3 H4 H5 H6 H7 H8]. constructor; auto.
+  intros [H1 H2 H3 H4 H5 H6 H7 H8 H9]. constructor; auto.
   - cbn [conns set_conns]. rewrite app_length. lia.
   - intros c. specialize (H2 c). rewrite cnt_cons.
     change (W x (set_conns (conns s ++ [cn]) s) c) with (W x s c).
@@ -350,20 +371,27 @@ Proof.
 Qed.
 
 Lemma J_set_req_same x F w v q s : nth_error (reqs s) w = Some q -> reqW v = reqW q ->
-  (qfree (Some q) dc -> qfree (Some v) dc) -> J s0 dc x F s -> J s0 dc x F (set_req w v s).
+  (qfree (Some q) dc -> qfree (Some v) dc) -> kstep (Some q) (Some v) -> J s0 dc x F s -> J s0 dc x F (set_req w v s).
 Proof.
-  intros Hq HW Hf H. destruct x as [r|]; [destruct (Nat.eq_dec w r) as [->|Hn]|].
+  intros Hq HW Hf Hk H. destruct x as [r|]; [destruct (Nat.eq_dec w r) as [->|Hn]|].
   - apply J_set_req_x, H.
   - eapply J_set_req_gen; eauto; [congruence|]. intros c. rewrite HW. lia.
   - eapply J_set_req_gen; eauto; [discriminate|]. intros c. rewrite HW. lia.
 Qed.
+
+Lemma kstep_ck (ck ck' : checkout) : k_conn ck' = k_conn ck -> kstep (Some (RCheckout ck)) (Some (RCheckout ck')).
+Proof.
+  intros E. split; [|intros []]. intros c (ck0 & E0 & Hk). inversion E0; subst. left. exists ck'. split; [reflexivity|congruence].
+Qed.
+Lemma kstep_gone q v : goneq (Some v) -> kstep q (Some v).
+Proof. intros H. split; auto. Qed.
 
 Lemma J_deliver x F w p s : J s0 dc x (pw p ++ F) s -> (dead s0 dc -> fst p <> dc) -> J s0 dc x F (deliver w p s).
 Proof.
   intros H Hp. unfold deliver. destruct (get_req s w) as [[|ck| | |]|] eqn:Hq; try (eapply J_weak; exact H).
   assert (H1 : J s0 dc x F (set_req w (RCheckout (k_set_slot (Some p) ck)) s)).
   { assert (Hgen : Some w <> x -> J s0 dc x F (set_req w (RCheckout (k_set_slot (Some p) ck)) s)).
-    { intros Hne. eapply (J_set_req_gen s0 dc x (pw p ++ F)); [exact Hq|exact Hne| | |exact H].
+    { intros Hne. eapply (J_set_req_gen s0 dc x (pw p ++ F)); [exact Hq|exact Hne| | |apply kstep_ck; reflexivity|exact H].
       - intros c. cbn [reqW]. unfold ckW. cbn [k_set_slot k_conn k_slot oslot]. rewrite !cnt_app, ?cnt_nil. lia.
       - intros Hd [Ha Hb]. split; cbn [k_set_slot k_conn k_slot]; [exact Ha|]. intros t E. inversion E; subst. apply (Hp Hd). reflexivity. }
     destruct x as [r|]; [destruct (Nat.eq_dec w r) as [->|Hn]|].
@@ -404,7 +432,7 @@ Lemma J_drop_sender x F w s : J s0 dc x F s -> J s0 dc x F (drop_sender w s).
 Proof.
   intros H. unfold drop_sender. destruct (get_req s w) as [[|ck| | |]|] eqn:Hq; try exact H.
   assert (H1 : J s0 dc x F (set_req w (RCheckout (k_set_txdropped true ck)) s)).
-  { eapply J_set_req_same; [exact Hq|reflexivity| |exact H]. intros [A B]. split; cbn [k_set_txdropped k_conn k_slot]; auto. }
+  { eapply J_set_req_same; [exact Hq|reflexivity| |apply kstep_ck; reflexivity|exact H]. intros [A B]. split; cbn [k_set_txdropped k_conn k_slot]; auto. }
   destruct (k_waiter ck); try exact H; (destruct (k_rxpolled ck); [eapply J_fj; [apply fj_wake_req|exact H1]|exact H1]).
 Qed.
 
@@ -572,6 +600,27 @@ Proof.
         -- intros ->. apply A. exact Ec.
 Qed.
 
+Lemma waiter_poll_kc ck : k_conn (snd (waiter_poll ck)) = k_conn ck.
+Proof.
+  unfold waiter_poll. destruct (k_waiter ck); [destruct (k_slot ck)|destruct (k_slot ck)|]; try destruct (k_txdropped ck); reflexivity.
+Qed.
+
+(* a pending poll leaves the popped connection in the checkout *)
+Lemma checkout_poll_kc rid ck s :
+  fst (fst (checkout_poll cfg rid ck s)) = KPending -> k_conn (snd (fst (checkout_poll cfg rid ck s))) = k_conn ck.
+Proof.
+  pose proof (waiter_poll_kc ck) as Hk. unfold checkout_poll. destruct (waiter_poll ck) as [w ck1]. cbn [snd] in Hk.
+  destruct w; cbn [fst snd]; try (intros E; discriminate E); try (intros _; exact Hk).
+  destruct (k_inner ck1); cbn [fst snd]; try (intros E; discriminate E); try (intros _; exact Hk).
+  1: { destruct (k_conn ck1) as [c|] eqn:Ec; cbn [fst snd]; [|intros _; congruence].
+       destruct (rx_drop (k_set_conn None ck1) s) as [ck2 s2].
+       destruct (register cfg (k_token ck2) c (set_req rid (RCheckout ck2) s2)) as [p s3]. cbn [fst]. intros E; discriminate E. }
+  all: destruct (connector_poll rid ByReq s) as [r s1]; destruct r as [|res]; cbn [fst snd]; [intros _; exact Hk|];
+       destruct (rx_drop ck1 s1) as [ck2 s2]; destruct res as [c|e]; cbn [fst]; try (intros E; discriminate E);
+       destruct (register cfg (k_token (k_set_inner IConnected ck2)) c (set_req rid (RCheckout (k_set_inner IConnected ck2)) s2)) as [p s3];
+       cbn [fst]; intros E; discriminate E.
+Qed.
+
 Lemma J_checkout_drop x F rid ck s : J s0 dc x (ckW ck ++ F) s -> J s0 dc x F (checkout_drop cfg rid ck s).
 Proof.
   intros H. unfold checkout_drop.
@@ -617,7 +666,7 @@ Proof. intros H. unfold set_req. cbn [reqs set_reqs]. rewrite nth_error_upd_nth_
 Lemma J_do_poll r s : J s0 dc None [] s -> J s0 dc None [] (do_poll cfg r s).
 Proof.
   intros H. unfold do_poll. destruct (get_req s r) as [[|ck|p fin pl| |]|] eqn:Hq; try exact H.
-  - eapply (J_set_req_gen s0 dc None [] [] _ r RDone RError); [exact Hq|discriminate| |auto|].
+  - eapply (J_set_req_gen s0 dc None [] [] _ r RDone RError); [exact Hq|discriminate| |auto|apply kstep_gone; exact I|].
     + intros c. cbn [reqW]. lia.
     + apply J_emit_plain; [exact I|]. eapply J_fj; [apply fj_unwake_req|exact H].
   - assert (Hr : r < List.length (reqs s)) by (eapply nth_error_lt; exact Hq).
@@ -627,13 +676,16 @@ Proof.
     assert (Hf : Dd -> ckfree ck dc).
     { intros [Hd Hq0]. pose proof (j_free _ _ _ _ _ H Hd r ltac:(discriminate) Hq0) as Hx. unfold get_req in Hq. rewrite Hq in Hx. exact Hx. }
     destruct (J_checkout_poll Dd (@proj1 _ _) r [] ck _ H1 Hf) as [HJ HF].
-    destruct (checkout_poll cfg r ck (unwake_req r s)) as [[res ck1] s2]. cbn [fst snd] in HJ, HF.
+    pose proof (checkout_poll_kc r ck (unwake_req r s)) as Hkc.
+    destruct (checkout_poll cfg r ck (unwake_req r s)) as [[res ck1] s2]. cbn [fst snd] in HJ, HF, Hkc.
     assert (Hr2 : r < List.length (reqs s2)).
     { rewrite (j_rlen _ _ _ _ _ HJ). rewrite <- (j_rlen _ _ _ _ _ H). exact Hr. }
     destruct res as [|[p|e]]; cbn [kW] in HJ.
-    + apply J_emit_plain; [exact I|].
-      apply (J_unblank s0 dc [] _ r (RCheckout ck1)); [apply nth_set_req_eq; exact Hr2| |].
+    + specialize (Hkc eq_refl). apply J_emit_plain; [exact I|].
+      apply (J_unblank s0 dc [] _ r (RCheckout ck1)); [apply nth_set_req_eq; exact Hr2| | |].
       * intros Hd Hq0. apply HF. split; assumption.
+      * eapply kstep_trans; [apply (j_kc _ _ _ _ _ H r); discriminate|]. unfold get_req in Hq. rewrite Hq.
+        apply kstep_ck. exact Hkc.
       * apply J_set_req_x. eapply J_F; [|exact HJ]. intros c. cbn [reqW]. rewrite !cnt_app, ?cnt_nil. lia.
     + destruct (match get_conn s2 (fst p) with
                 | Some cn => (c_share cn, c_open cn, c_ready cn, c_holders cn)
@@ -642,31 +694,32 @@ Proof.
       apply (J_unblank s0 dc (ckW ck1 ++ []) _ r (RHolding p false true)).
       * apply nth_set_req_eq. exact Hr2.
       * intros _ _. exact I.
+      * apply kstep_gone. exact I.
       * apply J_set_req_x. eapply J_fj; [apply fj_upd_conn|]. apply J_emit.
         -- eapply J_F; [|exact HJ]. intros c. cbn [reqW]. rewrite !cnt_app, ?cnt_nil. lia.
         -- intros Hd r' Hq' a b d n E. injection E as Er Ec. subst r'. exact (proj2 (HF (conj Hd Hq')) p eq_refl Ec).
     + apply J_emit_plain; [exact I|]. apply J_checkout_drop.
-      apply (J_unblank s0 dc (ckW ck1 ++ []) _ r RDone); [apply nth_set_req_eq; exact Hr2|intros _ _; exact I|].
+      apply (J_unblank s0 dc (ckW ck1 ++ []) _ r RDone); [apply nth_set_req_eq; exact Hr2|intros _ _; exact I|apply kstep_gone; exact I|].
       apply J_set_req_x. eapply J_F; [|exact HJ]. intros c. cbn [reqW]. rewrite !cnt_app, ?cnt_nil. lia.
   - assert (H1 : J s0 dc None [] (unwake_req r s)) by (eapply J_fj; [apply fj_unwake_req|exact H]).
     destruct fin.
     + apply J_emit_plain; [exact I|]. apply J_hold_release.
-      eapply (J_set_req_gen s0 dc None [] (pw p ++ []) _ r RDone (RHolding p true pl)); [exact Hq|discriminate| |auto|exact H1].
+      eapply (J_set_req_gen s0 dc None [] (pw p ++ []) _ r RDone (RHolding p true pl)); [exact Hq|discriminate| |auto|apply kstep_gone; exact I|exact H1].
       intros c. cbn [reqW]. rewrite !cnt_app, ?cnt_nil. lia.
     + apply J_emit_plain; [exact I|].
-      eapply (J_set_req_same None [] r _ (RHolding p false pl)); [exact Hq|reflexivity|auto|exact H1].
+      eapply (J_set_req_same None [] r _ (RHolding p false pl)); [exact Hq|reflexivity|auto|apply kstep_gone; exact I|exact H1].
 Qed.
 
 Lemma J_do_cancel r s : J s0 dc None [] s -> J s0 dc None [] (do_cancel cfg r s).
 Proof.
   intros H. unfold do_cancel. destruct (get_req s r) as [[|ck|p fin pl| |]|] eqn:Hq; try exact H.
   - eapply J_fj; [apply fj_unwake_req|].
-    eapply (J_set_req_gen s0 dc None [] [] _ r RCancelled RError); [exact Hq|discriminate| |intros; exact I|exact H]. intros c. cbn [reqW]. lia.
+    eapply (J_set_req_gen s0 dc None [] [] _ r RCancelled RError); [exact Hq|discriminate| |intros; exact I|apply kstep_gone; exact I|exact H]. intros c. cbn [reqW]. lia.
   - eapply J_fj; [apply fj_unwake_req|]. apply J_checkout_drop.
-    eapply (J_set_req_gen s0 dc None [] (ckW ck ++ []) _ r RCancelled (RCheckout ck)); [exact Hq|discriminate| |intros; exact I|exact H].
+    eapply (J_set_req_gen s0 dc None [] (ckW ck ++ []) _ r RCancelled (RCheckout ck)); [exact Hq|discriminate| |intros; exact I|apply kstep_gone; exact I|exact H].
     intros c. cbn [reqW]. rewrite !cnt_app, ?cnt_nil. lia.
   - eapply J_fj; [apply fj_unwake_req|]. apply J_hold_release.
-    eapply (J_set_req_gen s0 dc None [] (pw p ++ []) _ r RCancelled (RHolding p fin pl)); [exact Hq|discriminate| |intros; exact I|exact H].
+    eapply (J_set_req_gen s0 dc None [] (pw p ++ []) _ r RCancelled (RHolding p fin pl)); [exact Hq|discriminate| |intros; exact I|apply kstep_gone; exact I|exact H].
     intros c. cbn [reqW]. rewrite !cnt_app, ?cnt_nil. lia.
   - eapply J_fj; [apply fj_unwake_req|exact H].
   - eapply J_fj; [apply fj_unwake_req|exact H].
@@ -676,7 +729,7 @@ Lemma J_do_finish r s : J s0 dc None [] s -> J s0 dc None [] (do_finish r s).
 Proof.
   intros H. unfold do_finish. destruct (get_req s r) as [[|ck|p fin pl| |]|] eqn:Hq; try exact H.
   assert (H1 : J s0 dc None [] (set_req r (RHolding p true false) s))
-    by (eapply (J_set_req_same None [] r _ (RHolding p fin pl)); [exact Hq|reflexivity|auto|exact H]).
+    by (eapply (J_set_req_same None [] r _ (RHolding p fin pl)); [exact Hq|reflexivity|auto|apply kstep_gone; exact I|exact H]).
   destruct pl; [eapply J_fj; [apply fj_wake_req|exact H1]|exact H1].
 Qed.
 
@@ -873,6 +926,7 @@ Record IssueSpec (cfg : config) (u : nat) (s s' : state) (pre : list (nat * N)) 
   is_idle : forall t', p_idle (get_tok s t') = p_idle (get_tok s' t') ++ (if Nat.eqb t' (mtok cfg u s) then rev pre else []);
   is_W : forall c, W None s' c + cnt (map fst pre) c <= W None s c + cnt (oconn found) c;
   is_qn : forall c, found <> Some c -> qfree (Some qn) c;
+  is_kc : forall c, found = Some c -> kcq (Some qn) c;
   is_found : forall c, found = Some c ->
              exists dis a, pre = dis ++ [(c, a)] /\ forall d, g_timeout cfg = Some d -> (0 < d <= now s)%N -> (now s - d <= a)%N
 }.
@@ -884,9 +938,10 @@ Lemma add_spec cfg u s sx qn dl found pre :
   reqW qn = oconn found -> (forall c, found <> Some c -> qfree (Some qn) c) ->
   (forall c, found = Some c ->
      exists dis a, pre = dis ++ [(c, a)] /\ forall d, g_timeout cfg = Some d -> (0 < d <= now s)%N -> (now s - d <= a)%N) ->
+  (forall c, found = Some c -> kcq (Some qn) c) ->
   IssueSpec cfg u s (set_dials dl (set_reqs (reqs sx ++ [qn]) sx)) pre found qn.
 Proof.
-  intros A1 A2 A3 A4 A5 A6 A7 A8 A9 A10. constructor; auto.
+  intros A1 A2 A3 A4 A5 A6 A7 A8 A9 A10 A11. constructor; auto.
   - cbn [reqs set_dials set_reqs]. rewrite A1. reflexivity.
   - intros c. specialize (A7 c). rewrite (W_dec sx) in A7. rewrite W_dec. cbn [toks reqs tasks set_dials set_reqs].
     rewrite flat_map_app, cnt_app. cbn [flat_map]. rewrite app_nil_r, A8. lia.
@@ -959,8 +1014,9 @@ Proof.
                                                     (sx = upd_tok t f sd \/ sx = upd_tok t g (upd_tok t f sd))) ->
             reqs sx = reqs sd -> tasks sx = tasks sd -> conns sx = conns sd -> now sx = now sd -> out sx = out sd -> keys sx = keys sd ->
             reqW qn = oconn found -> (forall c, found <> Some c -> qfree (Some qn) c) ->
+            (forall c, found = Some c -> kcq (Some qn) c) ->
             IssueSpec cfg u s (set_dials dl (set_reqs (reqs sx ++ [qn]) sx)) pre found qn).
-  { intros sx qn dl Htk E1 E2 E3 E4 E5 E6 Hq1 Hq2.
+  { intros sx qn dl Htk E1 E2 E3 E4 E5 E6 Hq1 Hq2 Hq3.
     assert (Xidle : forall t', p_idle (get_tok sx t') = p_idle (get_tok sd t')).
     { intros t'. destruct Htk as [E|(f & g & Hf & Hg & [->| ->])].
       - destruct t'; cbn [get_tok]; [reflexivity|rewrite E; reflexivity].
@@ -985,7 +1041,9 @@ Proof.
       destruct (N.ltb_spec 0 d); [|lia]. destruct (N.leb_spec d (now s)); [|lia]. cbn [andb] in Ht. exact Ht. }
   destruct found as [c|].
   - exists pre, (Some c), (RCheckout (new_ck t WIdle IConnected (Some c) false true)).
-    apply Hfin; auto. intros c' Hc'. split; cbn [new_ck k_conn k_slot]; [congruence|discriminate].
+    apply Hfin; auto.
+    + intros c' Hc'. split; cbn [new_ck k_conn k_slot]; [congruence|discriminate].
+    + intros c' Hc'. eexists. split; [reflexivity|]. cbn [new_ck k_conn]. exact Hc'.
   - set (pending := match p_marker (get_tok sd t) with Some _ => true | None => false end).
     destruct pending.
     + exists pre, None, (RCheckout (new_ck t WConnecting IWaiting None false false)).
@@ -998,6 +1056,7 @@ Proof.
       * destruct t; reflexivity.
       * destruct t; reflexivity.
       * intros c' _. split; cbn; intros; discriminate.
+      * intros c' E; discriminate E.
     + exists pre, None, (RCheckout (new_ck t WIdle (if g_cont cfg then IDelayDrop else IConnecting) None match p with H1 => false | H2 => true end false)).
       apply Hfin; auto.
       * right. destruct p.
@@ -1010,4 +1069,73 @@ Proof.
       * destruct p, t; reflexivity.
       * destruct p, t; reflexivity.
       * intros c' _. split; cbn; intros; discriminate.
+      * intros c' E; discriminate E.
+Qed.
+
+(* ---------------------------------------------------------------- a dropped checkout whose popped connection is not open *)
+Lemma set_req_drop_conn r v c s : set_req r v (drop_conn c s) = drop_conn c (set_req r v s).
+Proof.
+  unfold drop_conn, get_conn. cbn [conns set_req set_reqs]. destruct (nth_error (conns s) c) as [cn|]; [|reflexivity].
+  destruct (Nat.eqb _ _); reflexivity.
+Qed.
+Lemma set_req_twice r v v' s : set_req r v (set_req r v' s) = set_req r v s.
+Proof. unfold set_req. cbn [reqs set_reqs now keys toks conns dials woken tasks runq out]. rewrite upd_nth_twice. reflexivity. Qed.
+
+Lemma checkout_drop_split cfg rid ck c s : k_conn ck = Some c -> is_open s c = false ->
+  checkout_drop cfg rid ck s = checkout_drop cfg rid (k_set_conn None ck) (drop_conn c s).
+Proof.
+  intros Hk Ho. unfold checkout_drop, rx_drop. cbn [k_set_conn k_conn k_token k_inner k_owner k_waiter k_slot]. rewrite Hk, Ho.
+  cbn [andb]. destruct (k_waiter ck), (k_slot ck); reflexivity.
+Qed.
+
+(* Cancel r, where r still has its popped connection c and c is not open: c is dropped for good *)
+Theorem cancel_dead cfg s r ck c :
+  nth_error (reqs s) r = Some (RCheckout ck) -> k_conn ck = Some c -> is_open s c = false ->
+  W None s c <= 1 -> c < List.length (conns s) ->
+  (forall r', r' <> r -> qfree (nth_error (reqs s) r') c) -> (forall t, k_slot ck <> Some (c, t)) ->
+  dead (step cfg s (Cancel r)) c /\ (forall r', qfree (nth_error (reqs (step cfg s (Cancel r))) r') c)
+  /\ (forall r', noHand r' c (out (step cfg s (Cancel r)))).
+Proof.
+  intros Hq Hk Ho HW Hlt Hfree Hslot.
+  set (ck' := k_set_conn None ck).
+  set (sA := drop_conn c (set_req r (RCheckout ck') (set_out [] s))).
+  assert (Estep : step cfg s (Cancel r) = do_cancel cfg r sA).
+  { unfold step, do_cancel. unfold get_req. cbn [reqs set_out]. rewrite Hq.
+    assert (EA : nth_error (reqs sA) r = Some (RCheckout ck')).
+    { unfold sA. assert (E : reqs (drop_conn c (set_req r (RCheckout ck') (set_out [] s))) = reqs (set_req r (RCheckout ck') (set_out [] s))).
+      { destruct (fe_drop_conn c (set_req r (RCheckout ck') (set_out [] s))) as [_ E]. exact E. }
+      rewrite E. apply nth_set_req_eq. cbn [reqs set_out]. eapply nth_error_lt; eauto. }
+    rewrite EA. f_equal.
+    rewrite (checkout_drop_split cfg r ck c (set_req r RCancelled (set_out [] s)) Hk Ho). fold ck'. f_equal.
+    unfold sA. rewrite set_req_drop_conn, set_req_twice. reflexivity. }
+  assert (WA : forall c', W None sA c' + cnt (oconn (k_conn ck)) c' = W None s c').
+  { intros c'. pose proof (W_set_req None (set_out [] s) r (RCheckout ck') (RCheckout ck) c' Hq ltac:(discriminate)) as H.
+    change (W None (set_out [] s) c') with (W None s c') in H. cbn [reqW] in H. unfold ckW in H.
+    assert (E : W None sA c' = W None (set_req r (RCheckout ck') (set_out [] s)) c').
+    { unfold sA, drop_conn. destruct (get_conn _ c) as [cn|]; [|reflexivity]. destruct (Nat.eqb _ _); reflexivity. }
+    rewrite E. cbn [ck' k_set_conn k_conn k_slot oconn] in H. rewrite !cnt_app, ?cnt_nil in H. lia. }
+  assert (LA : List.length (conns sA) = List.length (conns s)).
+  { unfold sA. rewrite len_drop_conn. reflexivity. }
+  assert (RA : forall r', nth_error (reqs sA) r' = if Nat.eqb r r' then Some (RCheckout ck') else nth_error (reqs s) r').
+  { intros r'. unfold sA. destruct (fe_drop_conn c (set_req r (RCheckout ck') (set_out [] s))) as [_ E]. rewrite E.
+    unfold set_req. cbn [reqs set_reqs set_out]. rewrite nth_error_upd_nth. destruct (Nat.eqb r r') eqn:Er; [|reflexivity].
+    apply Nat.eqb_eq in Er. subst r'. rewrite Hq. reflexivity. }
+  assert (DA : dead sA c).
+  { split; [|rewrite LA; exact Hlt]. specialize (WA c). rewrite Hk in WA. cbn [oconn] in WA. rewrite cnt_cons in WA.
+    destruct (Nat.eq_dec c c); [lia|congruence]. }
+  assert (FA : forall r', qfree (nth_error (reqs sA) r') c).
+  { intros r'. rewrite RA. destruct (Nat.eqb_spec r r') as [<-|Hn]; [|apply Hfree; congruence].
+    split; cbn [ck' k_set_conn k_conn k_slot]; [discriminate|exact Hslot]. }
+  assert (HA : forall r', noHand r' c (out sA)).
+  { intros r' a b d n. unfold sA, drop_conn. destruct (get_conn _ c) as [cn|]; [|intros []].
+    destruct (Nat.eqb _ _); cbn [out emit set_out upd_conn set_conns set_req set_reqs]; [intros [E|[]]; discriminate E|intros []]. }
+  pose proof (J_do_cancel cfg sA c r sA (J_refl' sA c HA)) as HJ. rewrite <- Estep in HJ.
+  split; [|split].
+  - split.
+    + pose proof (j_cnt _ _ _ _ _ HJ c) as H. rewrite cnt_nil in H. destruct DA as [D1 D2].
+      assert (E : newc sA (step cfg s (Cancel r)) c = 0) by (unfold newc; destruct (Nat.leb_spec (List.length (conns sA)) c); [lia|reflexivity]).
+      lia.
+    + pose proof (j_len _ _ _ _ _ HJ). lia.
+  - intros r'. apply (j_free _ _ _ _ _ HJ DA r' ltac:(discriminate) (FA r')).
+  - intros r'. apply (j_hand _ _ _ _ _ HJ DA r' (FA r')).
 Qed.
